@@ -301,15 +301,20 @@ ListingOrder(banks, em) ==
 \* A label's text runs through its colon.  An instruction runs to the end of
 \* its line, a data element to the next comma outside brackets (or to a
 \* closing bracket that was opened before it); a comment (";") ends both, and
-\* trailing blanks are not part of the item.  Returns the index of the last
-\* character (at is the 0-based offset of the first).
+\* trailing blanks are not part of the item.  An item may span several lines
+\* while a bracket opened inside it is still open (a block expression): line
+\* breaks and comments inside the brackets are blanks.  Returns the index of
+\* the last character (at is the 0-based offset of the first).
 ItemEnd(text, at, src) ==
     LET eol == FirstAt(text, at + 1, Len(text), NLc) - 1
+        far == IF Len(text) < at + 600 THEN Len(text) ELSE at + 600
         Step(a, p) ==
             LET c == text[p] IN
             IF a.done THEN a
+            ELSE IF a.cm THEN [a EXCEPT !.cm = (c # NLc)]
             ELSE IF a.q THEN [a EXCEPT !.q = (c # QUOTEc), !.last = p]
-            ELSE IF c = SEMIc THEN [a EXCEPT !.done = TRUE]
+            ELSE IF c = NLc THEN (IF a.d = 0 THEN [a EXCEPT !.done = TRUE] ELSE a)
+            ELSE IF c = SEMIc THEN (IF a.d = 0 THEN [a EXCEPT !.done = TRUE] ELSE [a EXCEPT !.cm = TRUE])
             ELSE IF src = "data" /\ a.d = 0 /\ c \in {COMMAc, 41, 93, 125} THEN [a EXCEPT !.done = TRUE]
             ELSE IF c \in {40, 91, 123} THEN [a EXCEPT !.d = @ + 1, !.last = p]
             ELSE IF c \in {41, 93, 125} THEN [a EXCEPT !.d = IF @ > 0 THEN @ - 1 ELSE 0, !.last = p]
@@ -318,8 +323,8 @@ ItemEnd(text, at, src) ==
             ELSE [a EXCEPT !.last = p]
         colon == FirstAt(text, at + 1, eol, COLONc)
     IN IF src = "label" THEN (IF colon <= eol THEN colon ELSE eol)
-       ELSE FoldLeft(Step, [done |-> FALSE, q |-> FALSE, d |-> 0, last |-> at],
-                     [k \in 1..(eol - at) |-> at + k]).last
+       ELSE FoldLeft(Step, [done |-> FALSE, q |-> FALSE, cm |-> FALSE, d |-> 0, last |-> at],
+                     [k \in 1..(far - at) |-> at + k]).last
 
 ItemText(text, at, src) == SubSeq(text, at + 1, ItemEnd(text, at, src))
 
@@ -371,7 +376,10 @@ RowData(row, it, banks, out, base) ==
         D == Concat(row.groups)
     IN \A k \in 1..Len(D) : D[k] = DigitChar(DigitAt(out, p + (k - 1) * w, w))
 
-RowSource(row, it, files) == row.src = ItemText(files[it.file].text, it.at, it.src)
+\* the item's source text on ONE row: an item written over several lines is shown with its
+\* line breaks as blanks (a line break would end the row / the comment it is shown in)
+OneLine(cs) == [k \in 1..Len(cs) |-> IF cs[k] \in {NLc, 13} THEN SPc ELSE cs[k]]
+RowSource(row, it, files) == row.src = OneLine(ItemText(files[it.file].text, it.at, it.src))
 
 \* the rows correspond one to one, in output order, to the emitted items
 RowsAgree(rows, items, banks, out, files, base, group) ==
